@@ -60,6 +60,16 @@ thread_local! {
     static SCRATCH: RefCell<Option<Scratch>> = RefCell::new(None);
     /// the program name (argv[0]) the next runs of this thread are started under; None = "xt"
     static ARG0: RefCell<Option<String>> = RefCell::new(None);
+    /// Some(prefix): standard input of the next runs of this thread is a regular file that starts with
+    /// these bytes, opened with its offset just behind them
+    static STDIN_PREFIX: RefCell<Option<Vec<u8>>> = RefCell::new(None);
+}
+
+pub fn judge_stdin_file(prefix: &[u8], argv: &[String], stdin: &[u8], stdout: &StdoutKind, acc: &mut Acc) {
+    STDIN_PREFIX.with(|a| *a.borrow_mut() = Some(prefix.to_vec()));
+    acc.count(if prefix.is_empty() { "stdin_is_a_regular_file_at_offset_0" } else { "stdin_is_a_regular_file_at_a_later_offset" });
+    judge_delivery(argv, stdin, &[], stdout, acc);
+    STDIN_PREFIX.with(|a| *a.borrow_mut() = None);
 }
 
 /// Program names a process can legitimately be started under: not valid UTF-8 (U+FFFD stands for the
@@ -105,7 +115,12 @@ pub fn judge(argv: &[String], stdin: &[u8], stdout: &StdoutKind, acc: &mut Acc) 
 pub fn judge_delivery(argv: &[String], stdin: &[u8], cuts: &[usize], stdout: &StdoutKind, acc: &mut Acc) {
     acc.evals += 1;
     let class = climodel::classify(argv);
-    let stdin_kind = if stdin == climodel::STDIN_IS_A_DIRECTORY {
+    let stdin_prefix = STDIN_PREFIX.with(|a| a.borrow().clone());
+    let stdin_kind = if let Some(prefix) = &stdin_prefix {
+        let mut whole = prefix.clone();
+        whole.extend_from_slice(stdin);
+        StdinKind::FileAtOffset(whole, prefix.len() as u64)
+    } else if stdin == climodel::STDIN_IS_A_DIRECTORY {
         acc.count("stdin_is_a_directory");
         StdinKind::Directory
     } else if cuts.is_empty() {
@@ -183,7 +198,7 @@ pub fn judge_delivery(argv: &[String], stdin: &[u8], cuts: &[usize], stdout: &St
         };
         acc.violation(Violation {
             sig: format!("{}: {}", sig_class, ev::truncate(&crate::c02_mask(&e), 80)),
-            case: json!({"argv": argv, "arg0": arg0, "stdin_hex": hex(stdin), "stdin_cuts": cuts, "stdout": format!("{stdout:?}")}),
+            case: json!({"argv": argv, "arg0": arg0, "stdin_file_prefix_hex": stdin_prefix.as_ref().map(|p| hex(p)), "stdin_hex": hex(stdin), "stdin_cuts": cuts, "stdout": format!("{stdout:?}")}),
             observed: format!("{e}; status {}, stdout [{}], stderr [{}]", out.status.show(), preview(&out.stdout, 100), preview(&out.stderr, 160)),
             expected: format!("model class {:?}", class),
         });
@@ -292,6 +307,24 @@ pub fn run(ctx: &Ctx) -> i32 {
         judge(&argv, climodel::STDIN_IS_A_DIRECTORY, &if k % 3 == 2 { StdoutKind::File } else { StdoutKind::Pipe }, acc);
     });
     acc.merge(dir_acc);
+    // standard input is a regular file (shell redirection), at offset 0 or behind bytes someone else consumed
+    let n_file = (1 + v) + ctx.size(300, 3000);
+    let prefixes: [&[u8]; 5] = [b"", b"{\"consumed\": true}\n", b"[0]\n[1]\n", b"x", b"--- skipped\n"];
+    let file_acc = crate::par::run(n_file, 8, |k, acc| {
+        let mut rng = Rng::derive(seed, 0xc13f, k as u64);
+        let argv: Vec<String> = if k == 0 {
+            vec![]
+        } else if k <= v {
+            vec![VOCAB[k - 1].to_string()]
+        } else {
+            let mut a: Vec<String> = (0..rng.range(1, 3)).map(|_| rng.pick(VOCAB).to_string()).collect();
+            a.insert(rng.below(a.len() + 1), "-".into());
+            a
+        };
+        acc.distinct(&("stdin-file", &argv, k % 5));
+        judge_stdin_file(prefixes[k % 5], &argv, STDINS[(k / 5) % 3], &if k % 3 == 2 { StdoutKind::File } else { StdoutKind::Pipe }, acc);
+    });
+    acc.merge(file_acc);
     // standard input that trickles in: multi-document streams (complete, and with a malformed or
     // unrepresentable later part) cut into 2-4 bursts at and inside document boundaries
     let streams: Vec<(&str, Vec<u8>)> = vec![
@@ -335,11 +368,11 @@ pub fn run(ctx: &Ctx) -> i32 {
         judge_delivery(&argv, bytes, &cuts, &StdoutKind::Pipe, acc);
     });
     acc.merge(b_acc);
-    let rule = format!("EVERY argument vector of length 0..={} over a {}-token vocabulary (-f/-t with every name and alias in attached, detached and '=' forms, repeated, missing value, invalid name; unknown short/long options; -h --help -V --version and clustered/valued forms; '--'; '-'; translatable / malformed / undetectable / unrepresentable / missing / directory / empty paths, a JSON file nested 200 000 deep, YAML behind a UTF-8 byte order mark, a file whose extension is a one-letter format alias, a procfs file (regular, reported size 0, not mappable, with content); the extension spelling 'yml' as an option value) plus {} random vectors of length 3-6 and every ordered pair of translatable inputs x every target; every vector of length 0..=1 and a sample of longer ones again with standard input an open directory (reads fail with EISDIR), and with the process started under 6 other program names (argv[0] not valid UTF-8, empty, a path, with a space); each run with a pipe and (rotating) a file, a pseudo-terminal or /dev/full as stdout, stdin content rotating over translatable / malformed / empty; plus 10 multi-document streams (complete, or with a malformed / unrepresentable later document; up to 30 KiB) x named or detected source x 4 targets, trickling in on stdin in 2-4 bursts with pauses; distinct non-trivial = distinct argument vectors", exhaustive_len, v, n_random);
+    let rule = format!("EVERY argument vector of length 0..={} over a {}-token vocabulary (-f/-t with every name and alias in attached, detached and '=' forms, repeated, missing value, invalid name; unknown short/long options; -h --help -V --version and clustered/valued forms; '--'; '-'; translatable / malformed / undetectable / unrepresentable / missing / directory / empty paths, a JSON file nested 200 000 deep, YAML behind a UTF-8 byte order mark, a file whose extension is a one-letter format alias, a procfs file (regular, reported size 0, not mappable, with content); the extension spelling 'yml' as an option value) plus {} random vectors of length 3-6 and every ordered pair of translatable inputs x every target; every vector of length 0..=1 and a sample of longer ones again with standard input an open directory (reads fail with EISDIR), with standard input a regular file at offset 0 or behind bytes already consumed, and with the process started under 6 other program names (argv[0] not valid UTF-8, empty, a path, with a space); each run with a pipe and (rotating) a file, a pseudo-terminal or /dev/full as stdout, stdin content rotating over translatable / malformed / empty; plus 10 multi-document streams (complete, or with a malformed / unrepresentable later document; up to 30 KiB) x named or detected source x 4 targets, trickling in on stdin in 2-4 bursts with pauses; distinct non-trivial = distinct argument vectors", exhaustive_len, v, n_random);
     let mut extra = serde_json::Map::new();
     extra.insert("argv_exhaustive_up_to_length".into(), json!(exhaustive_len));
     ev::finish(
-        Finish { ctx, level: "exploration", rule, assumptions: vec!["the harness runs as root, so an unreadable-file case cannot be produced (permission bits are ignored); missing files and directories stand in for open failures".into(), "argv is tokenised by the lexopt crate, the manual's rules are applied by the harness".into()], extra, exhaustive: false, min_distinct: 1000, must_reach: vec![("class_usage".into(), 500), ("class_help".into(), 200), ("class_run".into(), 500), ("run_expected_exit_0".into(), 100), ("run_expected_exit_1".into(), 100), ("msgpack_to_terminal_cases".into(), 10), ("stdout_pty".into(), 200), ("class_run_dev_full".into(), 50), ("stdin_delivered_in_bursts".into(), 200), ("runs_under_another_program_name".into(), 1000), ("stdin_is_a_directory".into(), 200)] },
+        Finish { ctx, level: "exploration", rule, assumptions: vec!["the harness runs as root, so an unreadable-file case cannot be produced (permission bits are ignored); missing files and directories stand in for open failures".into(), "argv is tokenised by the lexopt crate, the manual's rules are applied by the harness".into()], extra, exhaustive: false, min_distinct: 1000, must_reach: vec![("class_usage".into(), 500), ("class_help".into(), 200), ("class_run".into(), 500), ("run_expected_exit_0".into(), 100), ("run_expected_exit_1".into(), 100), ("msgpack_to_terminal_cases".into(), 10), ("stdout_pty".into(), 200), ("class_run_dev_full".into(), 50), ("stdin_delivered_in_bursts".into(), 200), ("runs_under_another_program_name".into(), 1000), ("stdin_is_a_directory".into(), 200), ("stdin_is_a_regular_file_at_a_later_offset".into(), 200)] },
         acc,
     )
 }
@@ -357,6 +390,7 @@ pub fn replay(v: &Value) -> i32 {
     let mut acc = Acc::default();
     let cuts: Vec<usize> = c["stdin_cuts"].as_array().map(|a| a.iter().filter_map(|x| x.as_u64().map(|n| n as usize)).collect()).unwrap_or_default();
     match c["arg0"].as_str() {
+        _ if c["stdin_file_prefix_hex"].is_string() => judge_stdin_file(&c["stdin_file_prefix_hex"].as_str().and_then(unhex).unwrap_or_default(), &argv, &stdin, &stdout, &mut acc),
         Some(a) => judge_as(a, &argv, &stdin, &stdout, &mut acc),
         None => judge_delivery(&argv, &stdin, &cuts, &stdout, &mut acc),
     }
